@@ -47,6 +47,8 @@
 #include <xercesc/dom/DOMLSParserFilter.hpp>
 #include <xercesc/dom/DOMLSException.hpp>
 #include <xercesc/validators/common/Grammar.hpp>
+#include <xercesc/framework/XMLGrammarDescription.hpp>
+#include <xercesc/util/RefHashTableOf.hpp>
 
 using namespace xercesc;
 
@@ -544,6 +546,21 @@ static void runStep(Session& S, const Case& c, const Step& st, size_t idx) {
         configure(S, o);
         if (op == "resetdocpool") { if (S.dom) S.dom->resetDocumentPool(); if (S.ls) S.ls->resetDocumentPool(); }
         else if (op == "resetgrammarpool") { if (S.sax1) S.sax1->resetCachedGrammarPool(); if (S.sax2) S.sax2->resetCachedGrammarPool(); if (S.dom) S.dom->resetCachedGrammarPool(); if (S.ls) S.ls->resetCachedGrammarPool(); }
+        else if (op == "dumppool") {
+            // enumeration of the pool's grammars through the public API (type, target namespace / system id), sorted
+            std::vector<std::string> v;
+            if (S.pool) {
+                RefHashTableOfEnumerator<Grammar> e = S.pool->getGrammarEnumerator();
+                while (e.hasMoreElements()) {
+                    Grammar& g = e.nextElement();
+                    XMLGrammarDescription* gd = g.getGrammarDescription();
+                    v.push_back(std::string("GP\t") + (g.getGrammarType() == Grammar::SchemaGrammarType ? "xsd" : "dtd") + "\t" + esc(g.getTargetNamespace()) + "\t" + esc(gd ? gd->getGrammarKey() : 0));
+                }
+            }
+            std::sort(v.begin(), v.end());
+            for (size_t i = 0; i < v.size(); i++) r.d.ev(v[i]);
+            r.d.ev("GPN\t" + itos((long long)v.size()));
+        }
         else if (op == "lockpool") { if (S.pool) S.pool->lockPool(); }
         else if (op == "unlockpool") { if (S.pool) S.pool->unlockPool(); }
         else {
